@@ -402,7 +402,14 @@ func anchorOracle(fn string, h, k int, x float64) (ok bool, obs, ref float64, la
 			obs, p = safe(func() float64 { return sp.BesselI(v, x) })
 		} else {
 			obs, p = safe(func() float64 { return sp.LogBesselI(v, x) })
-			ref = math.Log(ref)
+			if x > 300 {
+				ref = iHalfLog(n, x, v < 0)
+			} else {
+				ref = math.Log(ref)
+			}
+			if math.IsNaN(ref) {
+				return !p && math.IsNaN(obs), obs, ref, label // log of a negative value
+			}
 			return !p && math.Abs(obs-ref) <= 1e-7*(1+math.Abs(ref)), obs, ref, label
 		}
 		if p {
@@ -645,4 +652,65 @@ func runReplay(o Opts) {
 		res["holds"], res["detail"], res["label"] = ok, fmt.Sprintf("observed %v, closed form %v", obs, ref), label
 	}
 	writeJSON(filepath.Join(o.Out, "replay.json"), res)
+}
+
+// ---------------------------------------------------------------- corpus (witnesses of past failures; runs first)
+
+func runCorpus(o Opts, path string) {
+	b, err := os.ReadFile(path)
+	if err != nil {
+		writeJSON(filepath.Join(o.Out, "corpus.json"), map[string]interface{}{"entries": 0, "failures": []HuntEntry{}})
+		return
+	}
+	var fails []HuntEntry
+	n := 0
+	for _, line := range splitLines(string(b)) {
+		var e HuntEntry
+		if json.Unmarshal([]byte(line), &e) != nil {
+			continue
+		}
+		n++
+		args := make([]float64, len(e.Args))
+		for i, s := range e.Args {
+			args[i] = parseHex(s)
+		}
+		if e.Source == "relation" {
+			rel := findRel(e.Kind)
+			if rel == nil {
+				continue
+			}
+			ok, detail, label := rel.check(args)
+			if !ok {
+				e.Fails, e.Failure, e.Label, e.ArgsDec = true, e.Kind+" violated: "+detail, label, decs(args)
+				fails = append(fails, e)
+			}
+		} else {
+			ok, obs, ref, label := anchorOracle(e.Fn, e.H, e.K, args[0])
+			if !ok {
+				e.Fails, e.Label, e.ArgsDec = true, label, decs(args)
+				e.Failure = fmt.Sprintf("%s(h/2=%v, x=%v) = %v, closed form %v", e.Fn, float64(e.H)/2, args[0], obs, ref)
+				fails = append(fails, e)
+			}
+		}
+	}
+	writeJSON(filepath.Join(o.Out, "corpus.json"), map[string]interface{}{"entries": n, "failures": fails})
+}
+
+func splitLines(s string) []string {
+	var out []string
+	cur := ""
+	for _, c := range s {
+		if c == '\n' {
+			if cur != "" {
+				out = append(out, cur)
+			}
+			cur = ""
+		} else {
+			cur += string(c)
+		}
+	}
+	if cur != "" {
+		out = append(out, cur)
+	}
+	return out
 }
